@@ -2,6 +2,7 @@ package eng
 
 import (
 	"fmt"
+	"time"
 	"go/constant"
 	"go/token"
 	"go/types"
@@ -90,6 +91,14 @@ type Exec struct {
 	Notes     []string
 	race      *raceState
 	tickers   []tickerRec
+	feas      *Solver
+	feasN     int // assumptions already sent to feas
+	FeasQ, FeasPruned, FeasCached int
+	feasModels []*Model
+	FeasTime  time.Duration
+	FeasOff   bool
+	Prof      map[string]int
+	ProfCalls map[string]int
 	parFinished []*Term
 }
 
@@ -126,6 +135,11 @@ func NewExec(prog *ssa.Program, cfg Config) *Exec {
 	}
 	if cfg.AssumeLoops == nil {
 		cfg.AssumeLoops = map[string]bool{}
+	}
+	for _, fn := range []string{"(*" + xsyncPath + ".Map).doCompute", "(*" + xsyncPath + ".MapOf).doCompute"} {
+		if _, ok := cfg.Unwind[fn]; !ok {
+			cfg.Unwind[fn] = 3
+		}
 	}
 	// spin loops whose extra iterations change no state: pruned by assumption
 	for _, fn := range []string{xsyncPath + ".makeSeed", xsyncPath + ".lockBucket"} {
@@ -250,7 +264,7 @@ func (x *Exec) loadRaw(p PtrV, t types.Type) Value {
 			if r == nil {
 				r = cv
 			} else {
-				r = x.Merge(p.Alts[i].G, cv, r)
+				r = x.mergeDbg(p, j, i, cv, r)
 			}
 		}
 		leaves[j] = r
@@ -560,7 +574,12 @@ func (x *Exec) CallFunction(fn *ssa.Function, args []Value, binds []Value, g *Te
 		}
 	}
 	f.incoming[fn.Blocks[0]] = []edge{{g, nil}}
+	t0 := x.U.NumTerms()
 	x.runRegion(f, nil)
+	if x.Prof != nil {
+		x.Prof[fn.String()] += x.U.NumTerms() - t0
+		x.ProfCalls[fn.String()]++
+	}
 	// merge returns
 	res := fn.Signature.Results()
 	if res.Len() == 0 {
@@ -641,7 +660,10 @@ func (x *Exec) runLoop(f *frame, L *loopInfo) {
 		if iter > 4096 {
 			x.fail("loop %s: more than 4096 concrete iterations", L.name)
 		}
-		if counted >= K {
+		if iter > 0 && !x.feasible(g) {
+			break
+		}
+		if counted > K {
 			if assumeMode {
 				x.Assume(g, x.U.False, "")
 			} else {
@@ -743,7 +765,7 @@ func (x *Exec) runBlockEdges(f *frame, b *ssa.BasicBlock, in []edge) {
 	}
 	for _, ins := range b.Instrs[nphi:] {
 		x.NInstr++
-		x.step(f, ins, g)
+		x.stepSafe(f, ins, g)
 	}
 }
 
@@ -936,7 +958,7 @@ func (x *Exec) floatBin(op token.Token, a, b FloatV) Value {
 func (x *Exec) intToFloat(t *Term, signed bool) FloatV {
 	cs := PossibleConsts(t)
 	if cs == nil {
-		x.fail("int->float conversion of a non-enumerable symbolic value (n%d)", t.ID)
+		x.fail("int->float conversion of a non-enumerable symbolic value (n%d): %s", t.ID, t.Show(7))
 	}
 	r := FloatV{}
 	for _, c := range cs {
@@ -1060,4 +1082,90 @@ func (x *Exec) mkIface(t types.Type, v Value) IfaceV {
 // restrictIface returns v with its tag replaced by 0 when cond is false.
 func (x *Exec) restrictIface(v IfaceV, cond *Term) IfaceV {
 	return IfaceV{Tag: x.U.Ite(cond, v.Tag, x.U.Const(16, 0)), Pay: v.Pay}
+}
+
+
+func (x *Exec) stepSafe(f *frame, ins ssa.Instruction, g *Term) {
+	defer func() {
+		if e := recover(); e != nil {
+			if _, ok := e.(*ExecError); ok {
+				panic(e)
+			}
+			panic(&ExecError{fmt.Sprintf("engine: %v at %s in %s: %v", e, x.pos(ins.Pos()), f.fn.String(), ins)})
+		}
+	}()
+	x.step(f, ins, g)
+}
+
+
+func (x *Exec) mergeDbg(p PtrV, j, i int, cv, r Value) (out Value) {
+	defer func() {
+		if e := recover(); e != nil {
+			var sb strings.Builder
+			for _, al := range p.Alts {
+				o, _ := x.ObjOf(al.Addr + j)
+				fmt.Fprintf(&sb, " [addr %d+%d obj %q base %d type %v cell %T]", al.Addr, j, o.Name, o.Base, o.T, x.cells[al.Addr+j])
+			}
+			panic(&ExecError{fmt.Sprintf("load through pointer with inconsistent targets: %v;%s", e, sb.String())})
+		}
+	}()
+	return x.Merge(p.Alts[i].G, cv, r)
+}
+
+
+// feasible asks the side solver whether guard g is satisfiable together with
+// the assumptions made so far. Unknown/timeouts keep the path.
+func (x *Exec) feasible(g *Term) bool {
+	if g.IsFalse() {
+		return false
+	}
+	if g.IsTrue() || x.FeasOff {
+		return true
+	}
+	if x.feas == nil {
+		s, err := NewSolver(x.U, "z3-new", 3000)
+		if err != nil {
+			x.FeasOff = true
+			return true
+		}
+		x.feas = s
+	}
+	// cheap pre-check: a cached model of an earlier query may already witness g
+	for _, m := range x.feasModels {
+		ok := m.Eval(g) == 1
+		for i := 0; ok && i < len(x.Assumes); i++ {
+			ok = m.Eval(x.Assumes[i]) == 1
+		}
+		if ok {
+			x.FeasCached++
+			return true
+		}
+	}
+	t0 := time.Now()
+	res, _ := x.feas.Query(append(append([]*Term(nil), x.Assumes...), g))
+	if res == Sat && len(x.feasModels) < 24 {
+		var ts []*Term
+		for _, t := range x.U.all {
+			if (t.Op == OVar || t.Op == OApp) && x.feas.defined[t.ID] {
+				ts = append(ts, t)
+			}
+		}
+		if vals, err := x.feas.Values(ts); err == nil {
+			x.feasModels = append(x.feasModels, &Model{Vals: vals, memo: map[*Term]uint64{}, u: x.U})
+		}
+	}
+	x.FeasTime += time.Since(t0)
+	x.FeasQ++
+	if res == Unsat {
+		x.FeasPruned++
+		return false
+	}
+	return true
+}
+
+func (x *Exec) CloseFeas() {
+	if x.feas != nil {
+		x.feas.Close()
+		x.feas = nil
+	}
 }
